@@ -469,6 +469,11 @@ func (e *Engine) contentOf(st *state, v *Val) *Val {
 			return c // content recorded for this very slice value (e.g. filled by a loop)
 		}
 	}
+	if v.Op == "call" && v.Name == "bytes.Repeat" {
+		if c, ok := st.content[v.Key()]; ok {
+			return c // a pre-filled field something was copied into since
+		}
+	}
 	switch v.Op {
 	case "call":
 		// the result of a bytes/slices function applied to a view of the buffer: its content is the function applied to
